@@ -218,6 +218,7 @@ def stage_may_blocking():
     insert_after('src/sync/spsc.rs', 'wait_co.store(Blocker::new_coroutine(co));', L('spsc.subscribe.stored'))
     insert_before('src/sync/spsc.rs', 'self.channels.store(0, Ordering::Relaxed);', L('spsc.drop_chan'))
     insert_before('src/io/sys/unix/mod.rs', 'let event_data = unsafe { &mut *data.event_data };', L('io.timeout_handler.live'))
+    insert_after('src/io/sys/unix/mod.rs', 'set_co_para(&mut co, io::Error::new(io::ErrorKind::TimedOut, "timeout"));', L('io.timeout_handler.resumed'))
     for f in ['src/io/sys/unix/net/socket_read.rs', 'src/io/sys/unix/net/tcp_stream_connect.rs']:
         insert_before(f, 'io_data.co.store(co);', L('io.subscribe.before_store'))
 
